@@ -359,6 +359,7 @@ class Env:
         self.fns = {}
         self.shared = {}
         self.mount = mount
+        self.retained = None    # list: exceptions of failed operations are kept alive
         mdir = mount.dir if mount is not None else None
         self.norm = (lambda m: m.replace(mdir, '<MNT>')) if mdir else None
 
@@ -377,7 +378,7 @@ def _source(env, op, iost):
     if kind == 'bytesio':
         return io.BytesIO(data), None
     if kind == 'path':
-        p = env.mount.put(op.get('file', 'f') + '.yaml', data)
+        p = env.mount.put(op.get('file', 'f.src'), data)
         env.mount.plans[p] = {'chunks': op.get('chunks'),
                               'fault': ({'op': 'read', 'at': op['iof']['at'], 'errno': 'EIO'}
                                         if op.get('iof') else None)}
@@ -401,7 +402,7 @@ def _sink(env, op, iost):
         s = (simio.DuckSink if kind == 'duck' else simio.DuckSinkFlush)(iost, fail_at)
         return s, s.content
     if kind in ('path', 'strpath'):
-        name = op.get('file', 'f') + '.out'
+        name = op.get('file', 'f.out')
         env.mount.remove(name)
         if op.get('pre'):
             env.mount.put(name, b'PREEXISTING CONTENT ' * 40)
@@ -479,7 +480,7 @@ def exec_op(env, op, th=None):
     if th is not None:
         th.begin_op(op.get('cancel'))
     try:
-        out, ctx = ops.call(thunk, faults, env.norm)
+        out, ctx = ops.call(thunk, faults, env.norm, env.retained)
     except seam.SimCancel:
         out = {'status': 'cancelled', 'trace': []}
         ctx = None
@@ -541,6 +542,8 @@ def run_plan(plan, pristine_fp, yatiml_dir, yaml_dir, profile=False):
 
 def _run_plan(plan, pristine_fp, yatiml_dir, yaml_dir, mount, sched, profile=False):
     env = Env(plan['specs'], mount)
+    if (plan.get('knobs') or {}).get('retain_exc'):
+        env.retained = []
     violations = []
     history = []
     cheap = cheap_fingerprint_fn()
@@ -606,8 +609,10 @@ def _run_plan(plan, pristine_fp, yatiml_dir, yaml_dir, mount, sched, profile=Fal
     def make_body(tid, oplist):
         if repeat > 1:
             # a long history: the same operations over and over (count-dependent
-            # state: bounded caches, counters, "every n-th call")
-            oplist = [dict(op, file='{}r{}'.format(op.get('file', 'f'), r)) if 'file' in op else op
+            # state: bounded caches, counters, "every n-th call"); at most 8000 calls
+            if repeat * len(oplist) > 8000:
+                oplist = oplist[:max(1, 8000 // repeat)]
+            oplist = [dict(op, file='{}r{}'.format(op.get('file', 'f.x'), r)) if 'file' in op else op
                       for r in range(repeat) for op in oplist if op['op'] != 'mk' or r == 0]
 
         def body(th):
@@ -720,7 +725,7 @@ def reference_request(plan, fnops, rec):
             op['val_spec'], op['val'] = sv
         if op.get('val_spec') and op['val_spec'] not in need:
             need.append(op['val_spec'])
-        op['file'] = 'f'
+        op['file'] = 'cfg.ref'
     op.pop('cancel', None)
     return {'specs': [specs_by_uid[u] for u in need], 'mk': mk, 'op': op}
 
